@@ -219,7 +219,61 @@ def _kinds(args):
     return ks
 
 
+META_AGG = ['COUNT', 'COUNTA', 'MAX', 'MIN', 'AVERAGE', 'MEDIAN', 'SUM', 'PRODUCT', 'SUMSQ', 'MAXA', 'MINA', 'AVERAGEA', 'STDEV', 'VAR', 'STDEVP', 'VARP',
+            'LARGE', 'SMALL', 'AND', 'OR', 'XOR', 'SUMPRODUCT', 'COUNTBLANK']
+META_INNER = ['ISNUMBER(%s)', 'ISTEXT(%s)', 'ISBLANK(%s)', 'ISERROR(%s)', '%s>1', 'NOT(ISNUMBER(%s))', 'ISLOGICAL(%s)']
+META_DATA = [[[2.0], ['a'], [None], [7.5]], [[2.0, 'a', True, ['E', '#N/A']]], [[0.0, 1.0], [3.0, 'x']]]
+
+
+def meta_cases():
+    """A logical array computed by a function, handed to an aggregation, is the same argument as the literal array of those
+    logicals - alone and next to the data itself (added after seed c12-a-r3)."""
+    for agg in META_AGG:
+        for inner in META_INNER:
+            for di, data in enumerate(META_DATA):
+                for extra in (False, True):
+                    yield {'k': 'meta', 'agg': agg, 'inner': inner, 'd': data, 'extra': extra}
+
+
+def check_meta(case):
+    from .. import sut
+    data = [[sut.BLANK if v is None else (sut.Err(v[1]) if isinstance(v, list) else v) for v in row] for row in case['d']]
+    h, w = len(data), len(data[0])
+    ref = 'B1:%s%d' % ('BCDEFG'[w - 1], h)
+    inputs = {ref: data}
+    inner = case['inner'] % ref
+    tail = ',2' if case['agg'] in ('LARGE', 'SMALL') else ''
+    try:
+        iv, _ = sut.cell_eval('H1:%s%d' % ('HIJKLM'[w - 1], h), '=' + inner, inputs)
+        im = sut.matrix(iv)
+    except sut.Watchdog:
+        raise
+    except Exception as ex:  # noqa
+        return R(labels=['meta-skipped:inner-raised'])
+    if any(not isinstance(x, bool) for row in im for x in row):
+        return R(labels=['meta-skipped:inner-not-logical'])
+    lit = '{%s}' % ';'.join(','.join('TRUE' if x else 'FALSE' for x in row) for row in im)
+    second = (',' + ref) if case['extra'] and case['agg'] not in ('LARGE', 'SMALL', 'SUMPRODUCT', 'COUNTBLANK') else ''
+    out = []
+    for sp, arg in (('computed', inner), ('literal', lit)):
+        f = '=%s(%s%s%s)' % (case['agg'], arg, second, tail)
+        try:
+            v, _ = sut.cell_eval('A1', f, inputs)
+            out.append((f, sut.one(v) if not (isinstance(v, str) and v == 'MISSING') else sut.Foreign('no-output')))
+        except sut.Watchdog:
+            raise
+        except Exception as ex:  # noqa
+            out.append((f, sut.Foreign('raised:%s' % type(ex).__name__)))
+    fails = []
+    (f1, a), (f2, b) = out
+    if not X.same(a, b, 1e-12):
+        fails.append(('meta|%s|computed-vs-literal-logicals|%s' % (case['agg'], X.cls(a)), '%s = %r but %s = %r' % (f1, a, f2, b)))
+    return R(fails, nt=True, n=2, labels=['part:meta', 'f:' + case['agg']])
+
+
 def check_case(case):
+    if case.get('k') == 'meta':
+        return check_meta(case)
     f = case['f']
     args = [to_arg(s) for s in case['args']]
     labels = ['fam:' + F.FAMILY[f], 'f:' + f]
@@ -842,6 +896,7 @@ def parts(tier, seed):
     n = 600 if q else 25000
     return [
         ('enum', 'grid', _grid(tier), 300, False),
+        ('enum', 'computed-logical-arrays', meta_cases(), 60, False),
         ('hyp', 'logic', n),
         ('hyp', 'info', n // 2),
         ('hyp', 'agg', n * 2),
